@@ -256,7 +256,8 @@ def run_case(srv, victim, case, word, viol, stats):
     for e in new_events:
         if e["ev"] == "clientConnected" and st["authed_as"] is None and e["jid"] != VICTIM_FULL:
             viol.append(("clientConnected-without-authentication", "clientConnected(%s) fired for a connection that never authenticated" % e["jid"], w))
-        if e["ev"] == "clientConnected" and st["authed_as"] is not None and not e["jid"].startswith(st["authed_as"] + "@"):
+        # (the victim's own login is reported by the server process asynchronously and may land in the first case's window)
+        if e["ev"] == "clientConnected" and e["jid"] != VICTIM_FULL and st["authed_as"] is not None and not e["jid"].startswith(st["authed_as"] + "@"):
             viol.append(("clientConnected-wrong-user", "clientConnected(%s) fired, the connection authenticated as %s" % (e["jid"], st["authed_as"]), w))
     # success only for approved credentials
     for (mech, cred, user) in st["success_seen"]:
